@@ -751,14 +751,25 @@ def check(pid, tier, seed):
     if not okc:
         broken.append({"tie": "cargo build of the harness against /repo", "detail": cout[-3000:]})
 
+    # source files that changed since the models were last validated against them (tools/fingerprint.py):
+    # not an alarm, but a reason to look harder
+    changed_src = []
+    try:
+        rcf, outf = run([sys.executable, os.path.join(ROOT, "tools", "fingerprint.py")])
+        changed_src = json.loads(outf.strip().splitlines()[-1]) if rcf == 0 else []
+    except Exception:
+        changed_src = []
+    stats["dist"]["source-files-changed-since-validation"] = len(changed_src)
+    if changed_src:
+        stats["samples"].append("changed source files: " + " ".join(changed_src))
     if okc:
-        budget_mult = 10 if broken else 1   # a broken proof/tie: search harder for a concrete failing input
+        budget_mult = 10 if broken else (4 if changed_src else 1)   # broken proof/tie or changed source: search harder
         for run_entry in plan["runs"]:
             cmd, sizes = run_entry[0], run_entry[1]
             extra = list(run_entry[2]) if len(run_entry) > 2 else []
             outdir = os.path.join(BUILD, "runs", pid, cmd)
             n = sizes[tier] * budget_mult
-            args = ["--seed", str(seed), "--n", str(n), "--tier", "thorough" if (tier == "thorough" or broken) else "quick"] + extra
+            args = ["--seed", str(seed), "--n", str(n), "--tier", "thorough" if (tier == "thorough" or broken or changed_src) else "quick"] + extra
             oracle = None
             if cmd == "c11":
                 aux, oracle = c11_aux()
